@@ -29,6 +29,15 @@ func (p *PemReader) readNextBase64Line(byteData []byte) (int, error) {
 		return 0, err
 	}
 	matchString := pemPaddingRegEx.MatchString(readString)
+	//armor lines are skipped in a loop: skipping them by recursion lets a file which consists of
+	//millions of armor lines grow the stack until the runtime ends the process
+	for matchString {
+		readString, err = p.Reader.ReadString('\n')
+		if err != nil {
+			return 0, err
+		}
+		matchString = pemPaddingRegEx.MatchString(readString)
+	}
 	if matchString {
 		return p.readNextBase64Line(byteData)
 	} else {
